@@ -1,4 +1,5 @@
 import Qentem.Proofs.JsonGrammar
+import Qentem.Proofs.JsonTokens
 /-! C06 — every RFC 8259 document parses to the value it denotes. -/
 namespace Qentem.Props.C06
 open Qentem.Json
@@ -12,6 +13,46 @@ theorem parse_print (d : Deps) (hd : DepsSafe d) (doc : JDoc) (hwf : WF d doc) (
     (hL : AllWs wsL) (hR : AllWs wsR) (hsz : (wsL ++ doc.print ++ wsR).length < 2 ^ 32) :
     parse d (wsL ++ doc.print ++ wsR).toArray = .ok doc.denote :=
   Qentem.Json.parse_print d hd doc hwf wsL wsR hL hR hsz
+
+/-- The same for the parser as it is linked (UnEscape and StringToNumber models, any width). -/
+theorem parse_print_concrete (w : Nat) (doc : JDoc) (hwf : WF (jsonDeps w) doc) (wsL wsR : Ws)
+    (hL : AllWs wsL) (hR : AllWs wsR) (hsz : (wsL ++ doc.print ++ wsR).length < 2 ^ 32) :
+    parse (jsonDeps w) (wsL ++ doc.print ++ wsR).toArray = .ok doc.denote :=
+  Qentem.Json.parse_print (jsonDeps w) (jsonDeps_safe w) doc hwf wsL wsR hL hR hsz
+
+/-! Token contracts discharged for the linked sub-routines. -/
+
+/-- unsigned decimal integers below 2^64: exact Natural -/
+theorem token_natural (w d1 : Nat) (xs : List Nat) (h1 : Qentem.StrToNum.isNonZeroDigit d1 = true)
+    (hxs : Qentem.StrToNum.AllDigits xs) (hv : Qentem.StrToNum.decVal (d1 :: xs) < 2 ^ 64) :
+    NumSpec (jsonDeps w) (d1 :: xs) .natural (Qentem.StrToNum.decVal (d1 :: xs)) :=
+  numSpec_natural w d1 xs h1 hxs hv
+
+/-- negative decimal integers down to −2^63: exact Integer -/
+theorem token_negative (w d1 : Nat) (xs : List Nat) (h1 : Qentem.StrToNum.isNonZeroDigit d1 = true)
+    (hxs : Qentem.StrToNum.AllDigits xs) (hv : Qentem.StrToNum.decVal (d1 :: xs) ≤ 2 ^ 63) :
+    NumSpec (jsonDeps w) (45 :: d1 :: xs) .integer (2 ^ 64 - Qentem.StrToNum.decVal (d1 :: xs)) :=
+  numSpec_negative w d1 xs h1 hxs hv
+
+theorem token_zero (w : Nat) : NumSpec (jsonDeps w) [48] .natural 0 := numSpec_zero w
+
+/-- every string body that `JSONUtils::Escape` can write (all short escapes, `\u00XX` controls, raw
+units of any width) decodes to the string it was written from -/
+theorem token_escaped_string (w : Nat) (s : List Nat) : StrSpec (jsonDeps w) (escapeJson s) s :=
+  strSpec_escaped w s
+
+/-- Non-vacuity with real tokens: `{"a\n":[-12, 0], "":7}` with whitespace is well-formed for the
+linked sub-routines, so `parse_print_concrete` applies to it. -/
+example : WF (jsonDeps 1) (.obj [32]
+    [([], escapeJson [97, 10], [97, 10], [], [32], .arr [] [([], .num [45, 49, 50] .integer (2 ^ 64 - 12), []), ([32], .num [48] .natural 0, [])], []),
+     ([10], escapeJson [], [], [], [], .num [55] .natural 7, [9])]) := by
+  refine ⟨by simp [AllWs, isWs], ⟨by simp [AllWs], strSpec_escaped 1 _, by simp [AllWs], by simp [AllWs, isWs], ?_, by simp [AllWs], ?_⟩⟩
+  · refine ⟨by simp [AllWs], ⟨by simp [AllWs], ?_, by simp [AllWs], ⟨by simp [AllWs, isWs], numSpec_zero 1, by simp [AllWs], trivial⟩⟩⟩
+    have := numSpec_negative 1 49 [50] (by decide) (by intro x hx; simp at hx; subst hx; decide) (by decide)
+    simpa [WF, Qentem.StrToNum.decVal] using this
+  · refine ⟨by simp [AllWs, isWs], strSpec_escaped 1 _, by simp [AllWs], by simp [AllWs], ?_, by simp [AllWs, isWs], trivial⟩
+    have := numSpec_natural 1 55 [] (by decide) (by intro x hx; simp at hx) (by decide)
+    simpa [WF, Qentem.StrToNum.decVal] using this
 
 /-- Duplicate keys: inserting an existing key keeps its position and replaces its value. -/
 theorem objInsert_last_wins_first_position (pre post : List (List Nat × JVal)) (k : List Nat) (v v' : JVal)
